@@ -703,7 +703,10 @@ def main(argv):
         return 1
     if inconclusive:
         return 2
-    log("[%s] OK: %d harnesses + %d aux checks passed in %.0fs" % (prop, len(results), len(aux_results), time.time() - t_start))
+    n_pass = len([r for r in results if r["status"] == "PASS"])
+    n_kf = len([r for r in results if r["status"] == "FAIL"])
+    log("[%s] OK: %d harnesses passed, %d known-finding witnesses failed as recorded, %d best-effort harnesses undecided, "
+        "%d aux checks passed in %.0fs" % (prop, n_pass, n_kf, len(results) - n_pass - n_kf, len(aux_results), time.time() - t_start))
     return 0
 
 
